@@ -41,6 +41,7 @@ def run(ctx):
     b_generated_value_types(ctx)
     b_llm_exception_scope(ctx)
     b_fallback_source(ctx)
+    b_fallback_total(ctx)
     a_utterance_verbatim(ctx)
     a_interpolation_escape(ctx)
     a_predefined_table(ctx)
@@ -523,6 +524,27 @@ def b_llm_exception_scope(ctx):
     ctx.floor("C17.b.llm-exception-scope", UTILS, "try blocks that convert to LLMCallException", n, 2)
 
 
+def b_fallback_total(ctx):
+    """The replacement flow is built from the NAME of the generated flow, which is LLM text too: if the name is what does not parse (`flow _dynamic_x bot respond, nicely`), the
+    second parse fails like the first.  Raised from the handler it fails the AddFlowsAction, `$flows` is None, the library flow fails on `len($flows)` and the turn ends with an
+    empty reply (F174).  Every parse of generated text in AddFlowsAction is therefore inside a try whose handler does not re-raise."""
+    t2 = ctx.tree.ast(RT2)
+    add = find_function(t2, "_add_flows_action")
+    if add is None:
+        raise AnalysisError("_add_flows_action not found", anchor=RT2 + "::_add_flows_action")
+    sites = [c for c in walk_no_nested(add) if isinstance(c, ast.Call) and src(c.func) == "parse_colang_file"]
+    ctx.floor("C17.b.fallback-total", RT2, "parses of generated text in AddFlowsAction", len(sites), 1)
+    for c in sites:
+        cov = contained(c, add)
+        ok = cov is not None and not handler_reraises(cov[1])
+        # (the first parse's handler is where the replacement is parsed: a raise of ColangRuntimeError for text without any flow definition is a deliberate rejection and is
+        #  contained by the action machinery; what matters is that no parse of LLM-derived text is left outside every handler)
+        ctx.check("C17.b.fallback-total", RT2, qualname(add), first_line(c, 60), ok,
+                  "a failure of this parse is handled inside the action" if ok else
+                  "`%s` parses text that contains the LLM's flow name outside any handler: a name with punctuation fails here again, the action raises, no flow is added and the turn ends "
+                  "without a bot message" % first_line(c, 50), line=c.lineno)
+
+
 def b_fallback_source(ctx):
     """When generated Colang does not parse, AddFlowsAction parses a REPLACEMENT flow.  That replacement is Colang source again: whatever is pasted into it is
     parsed and its string literals are interpolated when the flow runs.  The parse error's message quotes the offending LLM tokens, so the replacement source
@@ -652,6 +674,14 @@ def _escaped_chars(fn):
             if m:
                 body = m.group(1)
                 out |= set(re.sub(r"\\(.)", r"\1", body))
+            # a negated class (`[^\w\s]`): evaluated on every printable ASCII character (constant evaluation of the literal pattern)
+            m = re.fullmatch(r"\(?(\[\^[^\]]+\])\)?[+*]?", n.args[0].value)
+            if m and len(n.args) > 1 and isinstance(n.args[1], ast.Constant) and isinstance(n.args[1].value, str):
+                try:
+                    rx = re.compile(m.group(1))
+                    out |= {chr(c) for c in range(33, 127) if rx.fullmatch(chr(c)) and chr(c) not in n.args[1].value}
+                except re.error:
+                    pass
     return out
 
 
@@ -883,13 +913,16 @@ def c_generated_flow_name(ctx):
     removed = _escaped_chars(fn)
     collapses = any(isinstance(c, ast.Call) and isinstance(c.func, ast.Attribute) and c.func.attr == "split" and not c.args for c in ast.walk(fn)) or \
         any(isinstance(c, ast.Call) and src(c.func) == "re.sub" and c.args and isinstance(c.args[0], ast.Constant) and re.search(r"\\s[+*]|\[ \\t\]\+| \+|\\s\{2", str(c.args[0].value)) for c in ast.walk(fn))
-    missing = [ch for ch in "$#" if ch not in removed]
+    # `$` and `#` change what the parser registers (F152); every other punctuation character makes the `flow <name>` line unparsable (F174) - the name consists of NAME tokens
+    import string
+    missing = [ch for ch in "$#" + "".join(c for c in string.punctuation if c not in "$#_") if ch not in removed]
     ok = not missing and collapses
     ctx.check("C17.c.generated-flow-name", UTILS1, "escape_flow_name", "characters the parser does not read as part of a flow name", ok,
-              "`$`, `#` are removed and white space is collapsed: the name the action returns is the name the parser registers" if ok else
-              "escape_flow_name keeps %s%s: a bot intent like `bot tell $joke` / `bot give  answer` is registered under a different name than the one that is started - the undefined "
-              "flow is regenerated until the event budget is exhausted (dozens of LLM calls, empty reply, every later turn empty)"
-              % (", ".join("`%s`" % m for m in missing) or "", (" and " if missing else "") + ("surplus white space" if not collapses else "")), line=fn.lineno)
+              "every punctuation character (`$`, `#`, `,`, `.`, `?` ...) is removed and white space is collapsed: the name the action returns is the name the parser registers" if ok else
+              "escape_flow_name keeps %s%s: a bot intent like `bot tell $joke` / `bot give  answer` is registered under a different name than the one that is started (the undefined "
+              "flow is regenerated until the event budget is exhausted), one like `bot respond, nicely` / `bot ask how are you?` gives a `flow` line that does not parse (the fallback of "
+              "AddFlowsAction reads the same name, fails as well, and the turn ends without a bot message)"
+              % (" ".join("`%s`" % m for m in missing[:12]) or "", (" and " if missing else "") + ("surplus white space" if not collapses else "")), line=fn.lineno)
 
 
 def b_dynamic_load_contained(ctx):
